@@ -64,12 +64,22 @@ def join(a, b):
         if a[0] == "tup" and len(a[1]) == len(b[1]):
             return ("tup", tuple(join(x, y) for x, y in zip(a[1], b[1])))
         if a[0] == "net":
-            return ("net", a[1] and b[1])
+            return ("net", jflag(a[1], b[1]))
         if a[0] in ("view", "stat"):
-            return (a[0], a[1] if a[1] == b[1] else None, a[2] and b[2])
+            return (a[0], a[1] if a[1] == b[1] else None, jflag(a[2], b[2]))
     if {a[0], b[0]} <= {"pos", "num"}:
         return NUM
     return None
+
+
+def jflag(a, b):
+    """Join of the labels-are-positions flag of two networks: False (arbitrary labels) < 'perm' (the labels are a
+    permutation of 0..n-1, but the views list them in insertion order) < True (labels 0..n-1 in view order)."""
+    if not a or not b:
+        return False
+    if a == "perm" or b == "perm":
+        return "perm"
+    return True
 
 
 def elem_of(k):
@@ -115,6 +125,7 @@ class KResult:
     index_only: int = 0
     neither: int = 0
     returns: list = field(default_factory=list)
+    perm_pairs: list = field(default_factory=list)  # zip(view of a 'perm' network, ...) calls
     order_uses: list = field(default_factory=list)  # K3 information: sorted()/min()/max()/< on labels
     calls: list = field(default_factory=list)  # (call node, callee name, [arg kinds])
 
@@ -207,6 +218,9 @@ class KindAnalysis:
         elif isinstance(s, ast.If):
             self.ev(s.test, env)
             e1, e2 = dict(env), dict(env)
+            pg = self.perm_guard(s.test, env)
+            if pg is not None:
+                (e1 if pg[1] else e2)[pg[0]] = ("net", "perm")
             self.block(s.body, e1)
             self.block(s.orelse, e2)
             self.merge(env, e1, e2)
@@ -246,6 +260,40 @@ class KindAnalysis:
         elif isinstance(s, ast.Delete):
             for t in s.targets:
                 self.ev(t, env)
+
+    def perm_guard(self, test, env):
+        """`set(X.nodes) == set(range(X.num_nodes))` (also len(X.nodes) / len(X)): in that branch the node labels of X
+        are exactly 0..n-1 - usable as positions - but nothing says the view lists them in that order.
+        Returns (name of X, branch in which the guard holds)."""
+        if not (isinstance(test, ast.Compare) and len(test.ops) == 1 and isinstance(test.ops[0], (ast.Eq, ast.NotEq))):
+            return None
+        def nodes_of(e):
+            if isinstance(e, ast.Call) and getattr(e.func, "id", None) in ("set", "frozenset", "sorted", "list") and len(e.args) == 1:
+                a = e.args[0]
+                if isinstance(a, ast.Attribute) and a.attr in ("nodes", "_node") and isinstance(a.value, ast.Name):
+                    return a.value.id
+                if isinstance(a, ast.Name) and env.get(a.id) is not None and env[a.id][0] == "net":
+                    return a.id
+            return None
+        def range_n(e, x):
+            if isinstance(e, ast.Call) and getattr(e.func, "id", None) in ("set", "frozenset", "list") and len(e.args) == 1:
+                e = e.args[0]
+            if not (isinstance(e, ast.Call) and getattr(e.func, "id", None) == "range" and len(e.args) == 1):
+                return False
+            n = e.args[0]
+            if isinstance(n, ast.Attribute) and n.attr == "num_nodes" and isinstance(n.value, ast.Name) and n.value.id == x:
+                return True
+            if isinstance(n, ast.Call) and getattr(n.func, "id", None) == "len" and len(n.args) == 1:
+                a = n.args[0]
+                return (isinstance(a, ast.Name) and a.id == x) or (isinstance(a, ast.Attribute) and a.attr in ("nodes", "_node") and isinstance(a.value, ast.Name) and a.value.id == x)
+            return False
+        for l, r in ((test.left, test.comparators[0]), (test.comparators[0], test.left)):
+            x = nodes_of(l)
+            if x is not None and range_n(r, x):
+                k = env.get(x)
+                if k is None or k[0] == "net":
+                    return x, isinstance(test.ops[0], ast.Eq)
+        return None
 
     def side_effects(self, e, env):
         """x.append(v) / x.add(v) / x[k] = v style container growth."""
@@ -707,6 +755,9 @@ class KindAnalysis:
         if name == "enumerate" and e.args:
             return seq(tup(POS, self.iter_elem(e.args[0], a0, env)))
         if name == "zip":
+            for i, k in enumerate(args):
+                if k is not None and ((k[0] == "view" and k[2] == "perm") or (k[0] == "net" and k[1] == "perm")):
+                    self.res.perm_pairs.append((e, i))
             return seq(tup(*[self.iter_elem(x, k, env) for x, k in zip(e.args, args)]))
         if name in ("list", "tuple", "sorted", "reversed") and e.args:
             if name == "sorted":
